@@ -79,21 +79,23 @@ Proof. exact nopad_cannot_start. Qed.
 Print Assumptions C18_nopad_cannot_start.
 
 (* ---- composition with C04 (proofs/Compose_p2p.v) -----------------------------------------------------------
-   In model/Handshake.v the address of the authenticated transport identity is an oracle answer
-   (addr_of_pid).  Below it is GetEthAddressFromPeerID of model/Identity.v applied to the transport
-   identity of an honest node: private scalar d < 2^256, transport identity
-   host_id (pad32 (min_be d)) = peerid (compress (pub d)) (Compose_p2p.honest_pid), and the address
-   pubkey_addr d of its public key (Compose_p2p.honest_addr) - by the binding premises of C18_coherent the
-   address the node reports and the one its signatures recover to (these statements were written with the
-   name "signing_addr" for [pubkey_addr]; only the name changed).  The curve operations are arbitrary functions subject to the
-   two premises of C18_coherent; keccak is arbitrary.
-   Non-vacuity: Compose_p2p.ex_honest_premises. *)
+   In model/Handshake.v the address of the authenticated transport identity is an oracle answer (addr_of_pid)
+   and so is what the signature verifier recovers.  Below both are tied to an honest node, i.e. a node started
+   (libp2p.New as written now) with a key signer that was given the scalar d < 2^256 and is bound to it by the
+   three binding premises of C18_coherent:
+     - the peer's address-of-peer-id answer is GetEthAddressFromPeerID of the transport identity libp2p.New
+       builds from the signer's key: [node_peer_addr_now ... ks_priv d];
+     - the peer's verifier recovers from the node's handshake request the address the node's signatures recover
+       to: [recover_addr d] (that is what recover_addr means -- nothing is assumed about its value here);
+     - ks_priv d = d, ks_addr d = eth_addr (pub d), recover_addr d = eth_addr (pub d).
+   The address-binding check then succeeds BECAUSE of C18_coherent (peer-id address = recovered address); it is
+   not assumed.  The curve operations are arbitrary functions subject to the two curve premises; keccak is
+   arbitrary.  Non-vacuity: Compose_p2p.ex_honest_premises. *)
 From Coq Require Import ZArith.
 From MevVerif Require model.Handshake proofs.Compose_p2p.
 
-(* C18 o C04.  "An honest node always satisfies its peers' address-binding check": whenever the peer's
-   signature verifier recovered the node's signing address from the handshake request, the clause
-   "A is the address of the authenticated transport identity" of C04's admissibility predicate holds,
+(* C18 o C04.  "An honest node always satisfies its peers' address-binding check": the clause "A is the address of
+   the authenticated transport identity" of C04's admissibility predicate holds for A = the recovered address,
    and the whole predicate [proves] holds unless the node claims the provider role without the registry
    confirming its stake. *)
 Theorem C18_honest_node_passes_binding :
@@ -101,21 +103,17 @@ Theorem C18_honest_node_passes_binding :
          (decompress : bytes -> option point),
     (forall P, length (compress P) = 33%nat) ->
     (forall d, decompress (compress (pub d)) = Some (pub d)) ->
-    forall d, d < 2 ^ 256 ->
-    host_id pub compress (pad32 (min_be d)) = Some (Compose_p2p.honest_pid pub compress d) /\
+    forall (ks_priv : N -> N) (ks_addr recover_addr : N -> bytes) d, d < 2 ^ 256 ->
+    ks_priv d = d -> ks_addr d = eth_addr keccak (pub d) -> recover_addr d = eth_addr keccak (pub d) ->
     forall (o : Handshake.oracles),
       Handshake.addr_of_pid o =
-        Compose_p2p.pres_of (addr_of_peerid keccak decompress (Compose_p2p.honest_pid pub compress d)) ->
+        Compose_p2p.pres_of (node_peer_addr_now keccak pub compress decompress ks_priv d) ->
       forall role token sig,
-      Handshake.verify o sig (role ++ token) = Handshake.VOk true (pubkey_addr keccak pub d) ->
-      Handshake.addr_of_pid o = Handshake.POk (pubkey_addr keccak pub d) /\
-      ((role = Handshake.provider_string -> Handshake.registered o (pubkey_addr keccak pub d) = true) ->
-       Handshake.proves o role token sig (pubkey_addr keccak pub d)).
-Proof.
-  exact (fun keccak pub compress decompress H1 H2 d Hd =>
-    conj (Compose_p2p.honest_host_id pub compress d Hd)
-         (Compose_p2p.honest_node_passes_binding keccak pub compress decompress H1 H2 d Hd)).
-Qed.
+      Handshake.verify o sig (role ++ token) = Handshake.VOk true (recover_addr d) ->
+      Handshake.addr_of_pid o = Handshake.POk (recover_addr d) /\
+      ((role = Handshake.provider_string -> Handshake.registered o (recover_addr d) = true) ->
+       Handshake.proves o role token sig (recover_addr d)).
+Proof. exact Compose_p2p.honest_node_passes_binding. Qed.
 Print Assumptions C18_honest_node_passes_binding.
 
 (* C18 o C04.  Consequently such a peer never refuses the honest node for a bad signature, an address
@@ -126,18 +124,19 @@ Theorem C18_honest_never_refused_for_identity :
          (decompress : bytes -> option point),
     (forall P, length (compress P) = 33%nat) ->
     (forall d, decompress (compress (pub d)) = Some (pub d)) ->
-    forall d, d < 2 ^ 256 ->
+    forall (ks_priv : N -> N) (ks_addr recover_addr : N -> bytes) d, d < 2 ^ 256 ->
+    ks_priv d = d -> ks_addr d = eth_addr keccak (pub d) -> recover_addr d = eth_addr keccak (pub d) ->
     forall (o : Handshake.oracles),
       Handshake.addr_of_pid o =
-        Compose_p2p.pres_of (addr_of_peerid keccak decompress (Compose_p2p.honest_pid pub compress d)) ->
+        Compose_p2p.pres_of (node_peer_addr_now keccak pub compress decompress ks_priv d) ->
       forall role token sig,
-      Handshake.verify o sig (role ++ token) = Handshake.VOk true (pubkey_addr keccak pub d) ->
+      Handshake.verify o sig (role ++ token) = Handshake.VOk true (recover_addr d) ->
       forall cfg wfail f1 rest,
       Handshake.as_req f1 = Some (role, token, sig) ->
       forall cl, Handshake.res (Handshake.handle cfg o wfail (f1 :: rest)) = Handshake.Refuse cl ->
         cl <> Handshake.RSig /\ cl <> Handshake.RAddr /\ cl <> Handshake.RPid /\
         (cl = Handshake.RStake ->
-         role = Handshake.provider_string /\ Handshake.registered o (pubkey_addr keccak pub d) = false).
+         role = Handshake.provider_string /\ Handshake.registered o (recover_addr d) = false).
 Proof. exact Compose_p2p.honest_never_refused_for_identity. Qed.
 Print Assumptions C18_honest_never_refused_for_identity.
 
@@ -147,12 +146,13 @@ Theorem C18_honest_never_blocked_for_ever :
          (decompress : bytes -> option point),
     (forall P, length (compress P) = 33%nat) ->
     (forall d, decompress (compress (pub d)) = Some (pub d)) ->
-    forall d, d < 2 ^ 256 ->
+    forall (ks_priv : N -> N) (ks_addr recover_addr : N -> bytes) d, d < 2 ^ 256 ->
+    ks_priv d = d -> ks_addr d = eth_addr keccak (pub d) -> recover_addr d = eth_addr keccak (pub d) ->
     forall (o : Handshake.oracles),
       Handshake.addr_of_pid o =
-        Compose_p2p.pres_of (addr_of_peerid keccak decompress (Compose_p2p.honest_pid pub compress d)) ->
+        Compose_p2p.pres_of (node_peer_addr_now keccak pub compress decompress ks_priv d) ->
       forall role token sig,
-      Handshake.verify o sig (role ++ token) = Handshake.VOk true (pubkey_addr keccak pub d) ->
+      Handshake.verify o sig (role ++ token) = Handshake.VOk true (recover_addr d) ->
       forall cfg wfail f1 rest has_notifier add,
       Handshake.as_req f1 = Some (role, token, sig) ->
       ~ In (Handshake.EBlock 0%Z) (Handshake.inbound cfg o wfail (f1 :: rest) has_notifier add).
@@ -160,27 +160,42 @@ Proof. exact Compose_p2p.honest_never_blocked_for_ever. Qed.
 Print Assumptions C18_honest_never_blocked_for_ever.
 
 (* C18 o C04 (C04_exact_responder).  With the echo of the peer's own request in place and no failed write
-   the honest node is enrolled, under its signing address and the role it claimed. *)
+   the honest node is enrolled, under the address its signatures recover to and the role it claimed. *)
 Theorem C18_honest_enrolled :
   forall (keccak : bytes -> bytes) (pub : N -> point) (compress : point -> bytes)
          (decompress : bytes -> option point),
     (forall P, length (compress P) = 33%nat) ->
     (forall d, decompress (compress (pub d)) = Some (pub d)) ->
-    forall d, d < 2 ^ 256 ->
+    forall (ks_priv : N -> N) (ks_addr recover_addr : N -> bytes) d, d < 2 ^ 256 ->
+    ks_priv d = d -> ks_addr d = eth_addr keccak (pub d) -> recover_addr d = eth_addr keccak (pub d) ->
     forall (o : Handshake.oracles),
       Handshake.addr_of_pid o =
-        Compose_p2p.pres_of (addr_of_peerid keccak decompress (Compose_p2p.honest_pid pub compress d)) ->
+        Compose_p2p.pres_of (node_peer_addr_now keccak pub compress decompress ks_priv d) ->
       forall role token sig,
-      Handshake.verify o sig (role ++ token) = Handshake.VOk true (pubkey_addr keccak pub d) ->
+      Handshake.verify o sig (role ++ token) = Handshake.VOk true (recover_addr d) ->
       forall cfg wfail f1 f2 rest ea er,
       Handshake.as_req f1 = Some (role, token, sig) ->
-      (role = Handshake.provider_string -> Handshake.registered o (pubkey_addr keccak pub d) = true) ->
+      (role = Handshake.provider_string -> Handshake.registered o (recover_addr d) = true) ->
       wfail 0%nat = false -> wfail 1%nat = false ->
       Handshake.as_resp f2 = Some (ea, er) -> Handshake.echo_is_own cfg ea er ->
       Handshake.res (Handshake.handle cfg o wfail (f1 :: f2 :: rest)) =
-        Handshake.Enrol (pubkey_addr keccak pub d) (Handshake.role_of_string role).
+        Handshake.Enrol (recover_addr d) (Handshake.role_of_string role).
 Proof. exact Compose_p2p.honest_enrolled. Qed.
 Print Assumptions C18_honest_enrolled.
+
+(* C18 o C04.  The third equality of C18_coherent at work: the peer echoes the address it recovered; the honest
+   node's own verifyResp compares it with what its key signer reports (GetAddress) and accepts. *)
+Theorem C18_honest_echo_accepted :
+  forall (keccak : bytes -> bytes) (pub : N -> point) (compress : point -> bytes)
+         (decompress : bytes -> option point),
+    (forall P, length (compress P) = 33%nat) ->
+    (forall d, decompress (compress (pub d)) = Some (pub d)) ->
+    forall (ks_priv : N -> N) (ks_addr recover_addr : N -> bytes) d, d < 2 ^ 256 ->
+    ks_priv d = d -> ks_addr d = eth_addr keccak (pub d) -> recover_addr d = eth_addr keccak (pub d) ->
+    forall cfg, Handshake.own_addr cfg = ks_addr d ->
+    Handshake.echo_ok cfg (recover_addr d) (Handshake.role_string (Handshake.own_type cfg)) = true.
+Proof. exact Compose_p2p.honest_echo_accepted. Qed.
+Print Assumptions C18_honest_echo_accepted.
 
 (* C18 (used by C14_wf_from_handshake).  Two different CANONICAL peer ids (what peer.IDFromPublicKey answers for
    a secp256k1 key: the ids of authenticated connections) with the same address under GetEthAddressFromPeerID
